@@ -171,6 +171,9 @@ func ghostNames(spec *FuncSpec) map[string]bool {
 	for _, g := range spec.Ghost {
 		m[g.Name] = true
 	}
+	for _, g := range spec.GhostVars {
+		m[g.Name] = true
+	}
 	return m
 }
 
